@@ -225,6 +225,8 @@ func VerifC07Step(maxThr int) {
 	invoked := false
 	err, _ := verifExec(cb, func() error {
 		invoked = true
+		// the protected call itself takes time (a slow or hanging backend)
+		verifrt.Advance(time.Duration(verifrt.IntRange("callDuration", 0, 1<<41)))
 		switch ev {
 		case 1:
 			return verifErrBoom
